@@ -71,6 +71,10 @@ fn real_main() {
             let thorough = a.get("tier").map(|t| t == "thorough").unwrap_or(false);
             write_events(&a["out"], &libl::schnorr(seed, thorough));
         }
+        "range" => {
+            let thorough = a.get("tier").map(|t| t == "thorough").unwrap_or(false);
+            write_events(&a["out"], &libl::range(seed, thorough));
+        }
         "psig" => {
             let thorough = a.get("tier").map(|t| t == "thorough").unwrap_or(false);
             write_events(&a["out"], &libl::psig(seed, thorough));
